@@ -88,6 +88,7 @@ def c_fresh(a: str, b: str, form: int) -> bool:
     in another table, another run or an already returned result).
 
     pre: len(a) <= 2 and len(b) <= 2
+    pre: "." not in a and "." not in b
     pre: 0 <= form <= 4
     post: _
     """
